@@ -23,11 +23,11 @@ na = {
 checks = {
 "C04": dict(cat="fault_enumeration", ref="DESIGN.md §5",
   text="For every generated decimal each of the 13 render operations is executed against a fault-free sink (text re-parsed by the crate's parser and by an independent numeral parser, compared exactly for value and for digits+scale) and against the complete enumerated set of sink faults for that operation (every call index failing transiently or permanently, every interesting fixed capacity, partial acceptance). Inputs are sampled (plus the full length x scale grid the property names); sink faults per input are exhaustive.",
-  note="trusts num-bigint arithmetic, core::fmt, and the harness's own numeral parser; sinks are assumed to refuse whole chunks or accept a stated prefix; default build configuration only",
+  note="trusts num-bigint arithmetic, core::fmt, and the harness's own numeral parser; sinks are assumed to refuse whole chunks or accept a stated prefix; default build configuration only (RUST_BIGDECIMAL_* unset); plain notation exercised up to |scale| 100000",
   tech="deterministic simulation with fault injection: simulated fmt::Write sinks with enumerated fault plans, exact round-trip oracle"),
 "C12": dict(cat="exploration", ref="DESIGN.md §6",
   text="Seeded search over (x, precision, mode, spelling of 1/x) x the admissible results of the platform's f64::exp2 at the initial-guess seam, each execution under a simulated step clock with a progress window (bounded liveness instead of a wall-clock timeout). Exact oracles: sign, |r*x-1| < one unit in digit p, exactness for terminating reciprocals, negation under the mirrored mode, 1/x == inverse(). A clean batch is evidence, not proof.",
-  note="admissible exp2 set: +-16 ULP (normal results), +-1 ULP or flush-to-zero (subnormal results); termination = at most 14+ceil(log2(p+2)) Newton iterations with the iterate's exponent inside e0+-(64+2p); default build configuration",
+  note="admissible exp2 set: +-16 ULP (normal results), +-1 ULP or flush-to-zero (subnormal results), 2^-1074 for the tie exp2(-1075); termination = at most 14+ceil(log2(p+2)) Newton iterations with the iterate's exponent inside e0+-(64+2p) (+1200 iterations / +700 decades in the tie environment, where the unchanged loop needs ~1080 steps), plus a wall-clock backstop (no run completing for 180 s) for anything outside the watched loop; default build configuration",
   tech="deterministic simulation with fault injection: float-intrinsic seam (exp2) perturbed per plan, simulated step-clock watchdog for termination, exact rational oracle"),
 "C14": dict(cat="exploration", ref="DESIGN.md §7",
   text="Seeded search over floats and decimals x the admissible results of the platform's f64::powi at the to_f64 seam. Exact oracles from bit patterns: float->decimal is the exact binary value, ->f64 returns the same bits, to_f64 of arbitrary decimals within 2^-48 / one subnormal step / infinity only near MAX, for every admissible powi result. Thorough enumerates all 2^32 f32 patterns (exhaustive for that sub-space).",
@@ -53,7 +53,7 @@ m = {
    "level_claimed":{"category":checks[c]["cat"],"text":checks[c]["text"],"design_ref":checks[c]["ref"]},
    "level_note":checks[c]["note"],"technique":checks[c]["tech"]} for c in claimed],
  "not_applicable":[{"property_id":k,"reason":v} for k,v in sorted({**na,**pending}.items())],
- "notes":"See DESIGN.md. ./check exits 2 for harness errors (build failure, stuck reach probe, nondeterminism), never confused with a verdict. Fixes of genuine defects found by these checks are the 'fix:' commits in /repo, listed in known-findings.json under 'fixed'."
+ "notes":"See DESIGN.md (section 15 for what was built and found). ./check exits 2 for harness errors (build failure, stuck reach probe, stuck generator, nondeterminism, failures that depend on execution history and cannot be replayed), never confused with a verdict. A process death or a stall inside the code under test is attributed to a run and reported as a VIOLATION (rules R0-process-survives / R0-operation-returns). Fixes of genuine defects found by these checks are the nine 'fix:' commits in /repo, listed in known-findings.json under 'fixed'; the two open known findings (C17, serde_json Value route) print KNOWN-FINDING lines. seeded/ holds 120 independently written property-breaking changes with SENSITIVITY.md recording which rule catches each."
 }
 json.dump(m,open(os.path.join(HERE,'MANIFEST.json'),'w'),indent=1)
 print("claimed:",claimed)
